@@ -299,6 +299,24 @@ def _validate_OperationTimeout(OperationTimeout):
                     OperationTimeout))
 
 
+def _cimxml_value(tup_parser, value, type):
+    # pylint: disable=redefined-builtin
+    """
+    Convert the value of a RETURNVALUE or PARAMVALUE element into a CIM data
+    type object.
+
+    String values are the CIM-XML representations of the values and are
+    converted with the unpack functions of the tuple parser (so that e.g.
+    'FALSE' becomes False, and invalid values raise CIMXMLParseError). Any
+    other values (e.g. embedded objects, None) are handled by cimvalue().
+    """
+    if isinstance(value, list):
+        return [_cimxml_value(tup_parser, v, type) for v in value]
+    if isinstance(value, str) and type is not None and type != 'reference':
+        return tup_parser.unpack_single_value(value, type)
+    return cimvalue(value, type)
+
+
 def _validate_MaxObjectCount_Iter(MaxObjectCount):
     """
     Validate the MaxObjectCount input parameter for the Iter...() operations.
@@ -2305,7 +2323,8 @@ class WBEMConnection:  # pylint: disable=too-many-instance-attributes
 
         if tup_tree and tup_tree[0][0] == 'RETURNVALUE':
 
-            returnvalue = cimvalue(tup_tree[0][2], tup_tree[0][1]['PARAMTYPE'])
+            returnvalue = _cimxml_value(
+                tp, tup_tree[0][2], tup_tree[0][1]['PARAMTYPE'])
             tup_tree = tup_tree[1:]
 
         # Convert zero or more PARAMVALUE elements into dictionary
@@ -2316,7 +2335,7 @@ class WBEMConnection:  # pylint: disable=too-many-instance-attributes
             if p[1] == 'reference':
                 output_params[p[0]] = p[2]
             else:
-                output_params[p[0]] = cimvalue(p[2], p[1])
+                output_params[p[0]] = _cimxml_value(tp, p[2], p[1])
 
         return (returnvalue, output_params)
 
